@@ -145,3 +145,13 @@ Proof.
   intros numtab e v H. unfold load_light in H. unfold read_light_loader.
   destruct (load_light_t numtab e) as [l|] eqn:L; [|discriminate]. now rewrite (load_light_is_read _ _ _ L).
 Qed.
+
+(* asset: the up axis is the one named in the file, Y_UP when there is none or another word *)
+Lemma up_axis_spec : forall o, up_axis_of o = spec_up_axis (text_of o).
+Proof.
+  intro o. unfold up_axis_of, spec_up_axis. destruct (text_of o) as [[|[z|k|a] [|t r]]|];
+    simpl; rewrite ?andb_false_r, ?andb_true_r; try reflexivity.
+  destruct (N.eqb a a_X_UP) eqn:X; [apply N.eqb_eq in X; now subst|].
+  destruct (N.eqb a a_Z_UP) eqn:Z; [apply N.eqb_eq in Z; subst; reflexivity|].
+  simpl. destruct (N.eqb a a_Y_UP) eqn:Y; [apply N.eqb_eq in Y; now subst|reflexivity].
+Qed.
